@@ -82,6 +82,7 @@ def cases(draw, tier="quick"):
     P["hs_fail"] = draw(st.sampled_from([[0, 0], [0, 0], [1, 0], [0, 1], [2, 1]]))
     P["hs_slow"] = draw(st.sampled_from([[False, False], [False, False], [True, False], [True, True]]))
     P["hs_fail_first"] = draw(st.sampled_from([[False, False], [False, False], [False, False], [True, False], [False, True]]))
+    P["get_in_close_cb"] = draw(st.booleans())
     for c_ in closes:
         if c_[1] == "halfopen":
             P["hs_slow"] = list(P["hs_slow"])
